@@ -27,6 +27,8 @@ def main():
         table.update(checks_a.CHECKS)
         import checks_cf
         table.update(checks_cf.CHECKS)
+        import checks_sched
+        table.update(checks_sched.CHECKS)
         table[prop](run)
     except Exception:
         run.proof_failures.append("check machinery failed: " + traceback.format_exc()[-1500:])
